@@ -183,6 +183,10 @@ def run_chunks(frames, chunks, base, eof_after=True, probes=False):
         for who, sess, handle in (("older", older, None), ("new", None, None), ("same-peer", None, None)):
             if sess is None:
                 sess = sim.Session(S, ("127.0.0.1", 10010) if who == "new" else ADDR)
+                if not sess.alive:
+                    bad.append(("other-session-broken", "%s session was closed by the server before it could send anything (%r)"
+                                % (who, sess.exc)))
+                    continue
                 r = sess.feed(W.register(b"ctx-new-"))
             else:
                 r = [older.conn.sent[0]]
